@@ -160,12 +160,14 @@ def gen_case(rng):
         if rng.random() < 0.1 and ins['columns']:
             ins['columns'][0] = f['columns'][0]
         key = rng.choice(f['columns']) if rng.random() < 0.9 else ['s', 'ZZ']
+        if rng.random() < 0.35:
+            key = ['iloc', rng.randint(-len(f['columns']), len(f['columns']) - 1)]          # a position, negative ones counting from the end
         return {'op': 'f_insert', 'f': f, 'key': key, 'after': rng.random() < 0.5, 'ins': ins}, C.rand_layout(rng, f)
     s = C.rand_series(rng, 6, index_kind=ik, min_n=1)
     n = len(s['index'])
     via = rng.choice(['iloc', 'loc', 'getitem'])
     rk = C.rand_iloc_key(rng, n) if via == 'iloc' else C.rand_loc_key(rng, s['index'])
-    op = rng.choice(['s_assign', 's_assign', 's_drop', 's_mask', 's_astype', 's_relabel', 's_rename'])
+    op = rng.choice(['s_assign', 's_assign', 's_drop', 's_mask', 's_astype', 's_relabel', 's_rename', 's_insert', 's_insert'])
     cs = {'op': op, 'via': via, 's': s, 'rk': rk}
     if op == 's_assign':
         if rng.random() < 0.5 or rk[0] in ('int', 'loc') or (rk[0] == 'iloc' and rk[1][0] == 'int'):
@@ -183,6 +185,14 @@ def gen_case(rng):
         cs = {'op': op, 's': s, 'ispec': rng.choice([['seq', new], ['map', s['index'][:1], [['s', 'M0']]]])}
     elif op == 's_rename':
         cs = {'op': op, 's': s, 'name': ['s', 'new']}
+    elif op == 's_insert':
+        k = rng.randint(0, 2)
+        fresh = [['s', 'N%d' % j] for j in range(k)] if (not s['index'] or s['index'][0][0] == 's') else [['i', 900 + j] for j in range(k)]
+        if k and rng.random() < 0.1:
+            fresh[0] = s['index'][0]          # a label the Series already has: rejected
+        col = C.rand_column(rng, rng.choice('ifU'), k)
+        key = rng.choice(s['index']) if rng.random() < 0.6 else ['iloc', rng.randint(-n, n - 1)]          # a label, or a position (negative ones count from the end)
+        cs = {'op': op, 's': s, 'key': key, 'after': rng.random() < 0.5, 'ins': {'index': fresh, 'vals': col['vals'], 'dt': col['dt'], 'name': ['none']}}
     return cs, None
 
 
